@@ -1,0 +1,30 @@
+//! Re-exports and small wrappers for verification machinery (compiled only with `--cfg inkayaku_verif`).
+
+use inkayaku_board::Bitboard;
+use inkayaku_uci::Score;
+
+pub use crate::engine::heuristic::Heuristic;
+pub use crate::engine::heuristic::simple::SimpleHeuristic;
+pub use crate::engine::move_order::{MoveOrder, MvvLvaMoveOrder};
+pub use crate::engine::search::{EngineOptions, Search, SearchMessage};
+pub use crate::engine::table::verif::TableHandle;
+pub use crate::engine::zobrist_history::ZobristHistory;
+
+/// Static evaluation exactly as the search calls it (white-centric value).
+pub fn evaluate(bitboard: &Bitboard, legal_moves_remaining: bool) -> i32 {
+    SimpleHeuristic.evaluate(bitboard, bitboard.calculate_zobrist_pawn_hash(), legal_moves_remaining)
+}
+
+pub fn score_from_value(value: i32, bitboard: &Bitboard) -> Score { SimpleHeuristic.score_from_value(value, bitboard) }
+
+pub fn is_checkmate_value(value: i32) -> bool { SimpleHeuristic.is_checkmate(value) }
+
+pub fn win_score() -> i32 { SimpleHeuristic.win_score() }
+
+pub fn draw_score() -> i32 { SimpleHeuristic.draw_score() }
+
+pub fn max_half_moves() -> u32 { <SimpleHeuristic as Heuristic>::MAX_HALF_MOVES }
+
+pub fn max_full_moves() -> i32 { <SimpleHeuristic as Heuristic>::MAX_FULL_MOVES }
+
+pub fn default_contempt() -> i32 { EngineOptions::default().contempt_factor }
